@@ -118,17 +118,18 @@ def run_layout(R, tonic):
         R.eq(tonic.const('codec::HEADER_SIZE').get('v'), hs, 'C01.R1', 'HEADER_SIZE', 'tonic/src/codec/mod.rs', 'HEADER_SIZE')
         fe = tonic.body('codec::encode::finish_encoding')
         R.saw(fe)
-        puts = [(bb, t) for bb, t in fe.calls(pat='BufMut::put_')]
-        names = [t['name'] for bb, t in puts]
-        R.eq(names, ['put_u8', 'put_u32'], 'C01.R1', 'prefix-writes', site(fe), 'prefix write calls in order (put_u32 = big-endian; accepted: put_u8 then put_u32)')
-        if len(puts) == 2:
-            R.check(fe.dominates(puts[0][0], puts[1][0]), 'C01.R1', 'flag-before-length', site(fe, puts[1][0]), 'put_u8 dominates put_u32')
-            flag = fe.origin(puts[0][1]['args'][1])
+        pw = mirlib.prefix_writes(fe)
+        layout = [(w, e) for bb, w, e, v, t in pw]
+        R.eq(layout, [(1, 'be'), (4, 'be')], 'C01.R1', 'prefix-writes', site(fe), 'prefix writes as (width, byte order) — accepted idioms: put_u8; put_u32 | put_slice(&x.to_be_bytes())')
+        puts = [(bb, t) for bb, w, e, v, t in pw]
+        if len(pw) == 2:
+            R.check(fe.dominates(pw[0][0], pw[1][0]), 'C01.R1', 'flag-before-length', site(fe, pw[1][0]), 'the flag write dominates the length write')
+            flag = pw[0][3]
             okf = flag[0] == 'cast' and is_call(strip_refs(flag[2]), name='is_some') and 'arg1' in show(flag[2])
-            R.check(okf, 'C01.R1', 'flag=is_some(encoding)', site(fe, puts[0][0]), 'flag operand = %s' % show(flag))
-            ln = fe.origin(puts[1][1]['args'][1])
+            R.check(okf, 'C01.R1', 'flag=is_some(encoding)', site(fe, pw[0][0]), 'flag operand = %s' % show(flag))
+            ln = pw[1][3]
             okl = ln[0] == 'cast' and 'SubWithOverflow' in show(ln) and 'len(' in show(ln) and 'const(%d)' % hs in show(ln)
-            R.check(okl, 'C01.R1', 'length=slice_len-HEADER_SIZE', site(fe, puts[1][0]), 'length operand = %s' % show(ln))
+            R.check(okl, 'C01.R1', 'length=slice_len-HEADER_SIZE', site(fe, pw[1][0]), 'length operand = %s' % show(ln))
             for pb, pt in puts:
                 dst = fe.origin(pt['args'][0])
                 ix = find_terms(dst, lambda x: is_call(x, name='index_mut'))
@@ -136,7 +137,7 @@ def run_layout(R, tonic):
                 if ix:
                     rng = strip_refs(ix[0][2][1])
                     okd = rng[0] == 'agg' and rng[1].get('adt', '').endswith('RangeTo') and const_val(rng[2][0]) == hs and 'arg3' in show(ix[0][2][0])
-                R.check(okd, 'C01.R1', '%s-into-header-region' % pt['name'], site(fe, pb), 'destination = %s' % show(dst)[:120])
+                R.check(okd, 'C01.R1', '%s-into-header-region' % ('flag' if pt is pw[0][4] else 'length'), site(fe, pb), 'destination = %s' % show(dst)[:120])
         ei = tonic.body('codec::encode::encode_item')
         R.saw(ei)
         lb = [(bb, t) for bb, t in ei.calls(name='len') if 'arg2' in show(ei.origin(t['args'][0]))]
@@ -178,7 +179,7 @@ def run_layout(R, tonic):
                 gs = dc.edge_guards(gb)
                 okg = any(tm[0] == 'bin' and tm[1] == 'Lt' and is_call(strip_refs(tm[2]), name='remaining') and const_val(tm[3]) == hs and vals == [0] for s, vals, tm in gs)
                 R.check(okg, 'C01.R2', '%s-behind-header-complete' % gt['name'], site(dc, gb), 'dominated by false edge of remaining() < %d' % hs)
-            wsum = sum(BE_PUT.get(n, 0) for n in ['put_u8', 'put_u32'])
+            wsum = sum(w or 0 for bb_, w, e_, v_, t_ in mirlib.prefix_writes(tonic.body('codec::encode::finish_encoding')))
             rsum = sum(BE_GET.get(t['name'], 0) for bb, t in gets)
             R.check(wsum == rsum == hs, 'C01.R2', 'widths', site(dc), 'writer prefix %d bytes, reader prefix %d bytes, HEADER_SIZE %d' % (wsum, rsum, hs))
         # incomplete header -> Ok(None)
